@@ -19,7 +19,7 @@ def gen_layout(rng):
         for s in subdirs[d]:
             order.append(d + "/" + s)
     units = {}
-    for name in rng.sample(["a.container", "b.container", "t@.container", "t@one.container", "v.volume", "t@blue@eu.container", "u@x.y.volume"], rng.randint(1, 5)):
+    for name in rng.sample(["a.container", "b.container", "t@.container", "t@one.container", "v.volume", "t@blue@eu.container", "u@x.y.volume", "web@eb.container", "app@app.container"], rng.randint(1, 5)):
         locs = rng.sample(order, rng.randint(1, min(2, len(order))))
         # conflicts only between different top-level dirs or parent/child (sibling order is unspecified)
         units[name] = sorted(set(locs), key=order.index)
